@@ -129,8 +129,8 @@ def run(ctx):
             if not pw:
                 pay = [m for h, m in ents if m[0] == "variant" and m[2] in ("Send", "Execute")]
                 ctx.ob("R15.3", key + "/no payout without proposal write", not pay, detail="payout emitted without touching a proposal: %s" % [show(m)[:120] for m in pay], trivial=True)
-    ctx.floor("R15.1", "proposal creations", n_create, 3)
-    ctx.floor("R15.3", "refund sites", n_refund, 4)
+    ctx.floor("R15.1", "proposal creations", n_create, 2)
+    ctx.floor("R15.3", "refund sites", n_refund, 2)
     ctx.ob("R15.4", "Close refuses stored Rejected (premise)", True, trivial=True, sample={"close_refuses_rejected": close_refuses_rejected})
     check_paid_body(ctx)
 
